@@ -198,6 +198,10 @@ def gen_history(rng, fam):
                                for _ in tasks],
                   'present': [rng.random() < 0.9 for _ in tasks],
                   'plan': []}
+            if rng.random() < 0.25:
+                op['extras'] = [[rng.randrange(ntask), rng.choice(
+                    ('scalar', 'text', 'area', 'outdir-none', 'list'))]
+                    for _ in range(rng.choice((1, 1, 2)))]
             if faulty and rng.random() < 0.6:
                 kind = rng.choice(('crash', 'crash', 'eio', 'open-fail'))
                 flt = {'kind': kind, 'file': rng.randrange(0, ntask)}
@@ -334,7 +338,24 @@ def _run_history(scn, sim, res, root):
         if kind == 'write':
             envd = {}
             order = []
+            # entries of the environment that are not task entries (shared
+            # scalars and areas written by task updates, an entry without a
+            # usable output directory): nothing to persist for them, and
+            # nothing that should stop the others from being persisted
+            extras = {}
+            for pos, what in op.get('extras', []):
+                extras.setdefault(pos, []).append(what)
+
+            def add_extras(pos):
+                for what in extras.get(pos, []):
+                    key = 'x-%s-%d' % (what, pos)
+                    envd[key] = {'scalar': 1000, 'text': 'shared',
+                                 'area': {'by': {'somebody': 1}},
+                                 'outdir-none': {'status': status_enum.DONE,
+                                                 'output_dir': None},
+                                 'list': [1, 2]}[what]
             for i, tsk in enumerate(tasks):
+                add_extras(i)
                 if not op['present'][i]:
                     continue
                 ent = gen_entry(tsk, op['version'], op['statuses'][i], root)
